@@ -102,4 +102,70 @@ Section WithAtan2.
     subst c1 c2 c3.
     apply mat_ext; nsatz.
   Qed.
+
+  (** *** Inside the gimbal band: every entry is reproduced within twice the horizontal length *)
+  Lemma radians_0 : radians 0 = 0.
+  Proof. unfold radians. field. Qed.
+
+  Lemma gimbal_error_bound : forall m, rotation m -> horiz m <= 1 / 1000 ->
+    mat_close (2 * horiz m) (from_angle_obj (to_angle atan2 m)) m.
+  Proof.
+    intros m Hm Hh. pose proof (rot_facts m Hm) as (h0 & hh & h1 & h2 & h3).
+    destruct (rotation_cross m Hm) as (C1 & C2 & C3).
+    unfold to_angle. destruct (ta_guard_dec m) as [G|G]; [apply ta_guard_horiz in G; lra|].
+    rewrite from_angle_obj_eq. unfold ta_ang, ta_lock; cbn [fst snd a_pitch a_yaw a_roll].
+    match goal with |- context [sqrt ?e] => replace (sqrt e) with (horiz m) by (unfold horiz; f_equal; ring) end.
+    set (h := horiz m) in *.
+    assert (bcb : bc m * bc m <= h * h) by nra.
+    assert (n2pos : 0 < bb m * bb m + - ba m * - ba m) by nra.
+    destruct (ta_eval_trig 1 (- ac m) h) as [Ecp Esp]; [nra|].
+    destruct (ta_eval_trig 1 (- ba m) (bb m)) as [Ecy Esy]; [lra|].
+    replace (h * h + - ac m * - ac m) with 1 in Ecp, Esp by lra. rewrite sqrt_1 in Ecp, Esp.
+    set (n := sqrt (bb m * bb m + - ba m * - ba m)) in *.
+    assert (npos : 0 < n) by (apply sqrt_lt_R0, n2pos).
+    assert (nn : n * n = 1 - bc m * bc m) by (unfold n; rewrite sqrt_sqrt; lra).
+    unfold from_angle.
+    rewrite Ecp, Esp, Ecy, Esy. cbn [ta_eval]. rewrite radians_0, cos_0, sin_0. clear Ecp Esp Ecy Esy.
+    unfold Rdiv. rewrite Rinv_1.
+    assert (ni : n * / n = 1) by (field; lra). revert ni. generalize (/ n). intros i ni.
+    clearbody n h. clear G Hm n2pos.
+    destruct m as [a1 a2 a3 b1 b2 b3 c1 c2 c3]; cbn [aa ab ac ba bb bc ca cb cc] in *.
+    subst c1 c2 c3.
+    pose (p := b2 * i). pose (q := b1 * i).
+    assert (n1 : n <= 1) by nra.
+    assert (pn : p * n = b2) by (unfold p; replace (b2 * i * n) with (b2 * (n * i)) by ring; rewrite ni; ring).
+    assert (qn : q * n = b1) by (unfold q; replace (b1 * i * n) with (b1 * (n * i)) by ring; rewrite ni; ring).
+    assert (pq : p * p + q * q = 1).
+    { replace 1 with ((n * i) * (n * i)) by (rewrite ni; ring).
+      replace (n * i * (n * i)) with ((n * n) * (i * i)) by ring. rewrite nn.
+      replace (1 - b3 * b3) with (b1 * b1 + b2 * b2) by lra. unfold p, q. ring. }
+    assert (gap : 0 <= 1 - n <= h * h) by nra.
+    assert (pb : -1 <= p <= 1) by nra.
+    assert (qb : -1 <= q <= 1) by nra.
+    assert (dp : - (h * h) <= p - b2 <= h * h).
+    { replace (p - b2) with (p * (1 - n)) by (rewrite <- pn; ring). nra. }
+    assert (dq : - (h * h) <= q - b1 <= h * h).
+    { replace (q - b1) with (q * (1 - n)) by (rewrite <- qn; ring). nra. }
+    assert (hsq : h * h <= h) by nra.
+    assert (a1b : - h <= a1 <= h) by nra.
+    assert (a2b : - h <= a2 <= h) by nra.
+    assert (a3b : - 1 <= a3 <= 1) by nra.
+    assert (b3b : - h <= b3 <= h) by nra.
+    assert (c3b : - h <= a1 * b2 - a2 * b1 <= h) by nra.
+    unfold mat_close; cbn [aa ab ac ba bb bc ca cb cc].
+    repeat split; apply Rabs_le.
+    - match goal with |- _ <= ?e <= _ => replace e with (h * p - a1) by (unfold p; ring) end. nra.
+    - match goal with |- _ <= ?e <= _ => replace e with (- (h * q) - a2) by (unfold q; ring) end. nra.
+    - match goal with |- _ <= ?e <= _ => replace e with 0 by ring end. lra.
+    - match goal with |- _ <= ?e <= _ => replace e with (q - b1) by (unfold q; ring) end. lra.
+    - match goal with |- _ <= ?e <= _ => replace e with (p - b2) by (unfold p; ring) end. lra.
+    - match goal with |- _ <= ?e <= _ => replace e with (- b3) by ring end. lra.
+    - match goal with |- _ <= ?e <= _ => replace e with (- a3 * (p - b2) - a2 * b3) by (unfold p; ring) end.
+      assert (- (h * h) <= a3 * (p - b2) <= h * h) by nra.
+      assert (- (h * h) <= a2 * b3 <= h * h) by nra. lra.
+    - match goal with |- _ <= ?e <= _ => replace e with (a3 * (q - b1) + a1 * b3) by (unfold q; ring) end.
+      assert (- (h * h) <= a3 * (q - b1) <= h * h) by nra.
+      assert (- (h * h) <= a1 * b3 <= h * h) by nra. lra.
+    - match goal with |- _ <= ?e <= _ => replace e with (h - (a1 * b2 - a2 * b1)) by ring end. lra.
+  Qed.
 End WithAtan2.
